@@ -434,6 +434,9 @@ class SmtLibParser(object):
             'str.substr': self._operator_adapter(mgr.StrSubstr),
             'str.prefixof': self._operator_adapter(mgr.StrPrefixOf),
             'str.suffixof': self._operator_adapter(mgr.StrSuffixOf),
+            'str.to_int': self._operator_adapter(mgr.StrToInt),
+            'str.from_int': self._operator_adapter(mgr.IntToStr),
+            # names used before SMT-LIB 2.6
             'str.to.int': self._operator_adapter(mgr.StrToInt),
             'int.to.str': self._operator_adapter(mgr.IntToStr),
             'bv2nat': self._operator_adapter(mgr.BVToNatural),
